@@ -110,7 +110,7 @@ class ConstantFolder(BlockPass):
                     b = self.eval_const(instruction.b)
                     assert a.ty is b.ty
                     cn = ir.Const(
-                        correct(a.value + b.value, a.ty), "new_fold", a.ty
+                        cast(a.value + b.value, a.ty), "new_fold", a.ty
                     )
                     block.insert_instruction(
                         cn, before_instruction=instruction
@@ -133,7 +133,7 @@ class ConstantFolder(BlockPass):
                     b = self.eval_const(instruction.b)
                     assert a.ty is b.ty
                     cn = ir.Const(
-                        correct(a.value + b.value, a.ty), "new_fold", a.ty
+                        cast(a.value + b.value, a.ty), "new_fold", a.ty
                     )
                     block.insert_instruction(
                         cn, before_instruction=instruction
